@@ -40,7 +40,6 @@ m = {
     "not_applicable": na,
     "notes": "See DESIGN.md. known_findings.txt lists repaired defects (fixed:) and recorded findings (finding:).",
 }
-if not na:
-    del m["not_applicable"]
+# kept even when empty: every property is claimed
 json.dump(m, open(os.path.join(ROOT, "MANIFEST.json"), "w"), indent=1)
 print("claimed:", [c["property_id"] for c in checks])
